@@ -250,6 +250,163 @@ func catalogue() []geom.Geom {
 	}
 }
 
+type variant struct {
+	h    geom.Geom
+	want bool
+	name string
+}
+
+var signs = []func(i int) (float64, float64){
+	func(i int) (float64, float64) { return 1, 1 },
+	func(i int) (float64, float64) { return -1, -1 },
+	func(i int) (float64, float64) { return 1, -1 },
+	func(i int) (float64, float64) { s := float64(1 - 2*(i%2)); return s, s },
+	func(i int) (float64, float64) { s := float64(1 - 2*(i%2)); return -s, s },
+	func(i int) (float64, float64) { s := float64(1 - 2*((i/2)%2)); return s, -s },
+}
+
+// localVariants derives geometries from g at its own level.
+func localVariants(g geom.Geom, tol float64, salt int) []variant {
+	var out []variant
+	add := func(h geom.Geom, want bool, name string) { out = append(out, variant{h, want, name}) }
+	add(clone(g), true, "identity")
+	np := nPoints(g)
+	perturbed := make([]geom.Geom, len(signs))
+	for si, sg := range signs {
+		h := mapPoints(g, func(i int, p geom.Point) geom.Point {
+			sx, sy := sg(i)
+			return geom.Point{X: p.X + sx*tol/2, Y: p.Y + sy*tol/2}
+		})
+		perturbed[si] = h
+		add(h, true, "perturbed")
+	}
+	for v := 0; v < np; v++ {
+		for axis := 0; axis < 2; axis++ {
+			for _, s := range []float64{2, -2} {
+				h := mapPoints(g, func(i int, p geom.Point) geom.Point {
+					if i == v {
+						if axis == 0 {
+							p.X += s * tol
+						} else {
+							p.Y += s * tol
+						}
+					}
+					return p
+				})
+				add(h, false, "vertex-displaced")
+			}
+		}
+	}
+	// the closing vertex of a closed ring displaced on its own
+	if pg, ok := g.(geom.Polygon); ok {
+		for ri, r := range pg {
+			if len(r) > 2 && r[0] == r[len(r)-1] {
+				for _, s := range []float64{2, -1000} {
+					h := clone(g).(geom.Polygon)
+					h[ri][len(r)-1].X += s * tol
+					add(h, false, "closing-vertex-displaced")
+				}
+			}
+		}
+	}
+	for k := 1; k < 4; k++ {
+		add(rotateRings(g, k), true, "ring-rotated")
+		add(rotateRings(perturbed[3], k), true, "ring-rotated+perturbed")
+	}
+	if ms, mk := members(g); ms != nil {
+		enum.Permutations(len(ms), func(p []int) bool {
+			x := make([]interface{}, len(ms))
+			for i, k := range p {
+				x[i] = ms[k]
+			}
+			add(mk(x), true, "members-permuted")
+			pm, _ := members(perturbed[salt%len(signs)])
+			y := make([]interface{}, len(ms))
+			for i, k := range p {
+				y[i] = pm[k]
+			}
+			add(mk(y), true, "members-permuted+perturbed")
+			return true
+		})
+		for i := range ms {
+			del := append(append([]interface{}{}, ms[:i]...), ms[i+1:]...)
+			add(mk(del), false, "member-deleted")
+			for pos := 0; pos <= len(ms); pos++ {
+				dup := append(append(append([]interface{}{}, ms[:pos]...), ms[i]), ms[pos:]...)
+				add(mk(dup), false, "member-duplicated")
+			}
+		}
+	}
+	switch t := g.(type) {
+	case geom.LineString:
+		if len(t) > 1 {
+			r := make(geom.LineString, len(t))
+			for i := range t {
+				r[i] = t[len(t)-1-i]
+			}
+			add(r, false, "line-reversed")
+		}
+	case geom.MultiLineString:
+		for m := range t {
+			if len(t[m]) < 2 {
+				continue
+			}
+			h := clone(g).(geom.MultiLineString)
+			for i, j := 0, len(h[m])-1; i < j; i, j = i+1, j-1 {
+				h[m][i], h[m][j] = h[m][j], h[m][i]
+			}
+			add(h, false, "line-reversed")
+		}
+	}
+	fl := geomgen.Flatten(g)
+	var alts []geom.Geom
+	alts = append(alts, geom.MultiPoint(fl), geom.LineString(fl), geom.MultiLineString{fl}, geom.Polygon{fl}, geom.MultiPolygon{{fl}}, geom.GeometryCollection{g})
+	if len(fl) > 0 {
+		alts = append(alts, fl[0])
+	}
+	if len(fl) >= 2 {
+		alts = append(alts, &geom.Bounds{Min: fl[0], Max: fl[1]})
+	}
+	for _, h := range alts {
+		if fmt.Sprintf("%T", h) != fmt.Sprintf("%T", g) {
+			add(h, false, "type-changed")
+		}
+	}
+	return out
+}
+
+// allVariants adds, for containers, every variant of every member (nested to
+// depth 2) with the other members unchanged.
+func allVariants(g geom.Geom, tol float64, salt, depth int) []variant {
+	out := localVariants(g, tol, salt)
+	ms, mk := members(g)
+	if ms == nil || depth >= 2 {
+		return out
+	}
+	_, isGC := g.(geom.GeometryCollection)
+	for i, m := range ms {
+		var mg geom.Geom
+		switch t := m.(type) {
+		case geom.Path:
+			continue // rings are handled at the polygon level
+		case geom.Geom:
+			mg = t
+		}
+		for _, v := range allVariants(mg, tol, salt+i, depth+1) {
+			if v.name == "identity" {
+				continue
+			}
+			if !isGC && fmt.Sprintf("%T", v.h) != fmt.Sprintf("%T", mg) {
+				continue
+			}
+			x := append([]interface{}{}, ms...)
+			x[i] = v.h
+			out = append(out, variant{mk(x), v.want, "nested:" + v.name})
+		}
+	}
+	return out
+}
+
 func main() {
 	tier := "quick"
 	if len(os.Args) > 1 {
@@ -261,112 +418,14 @@ func main() {
 		return
 	}
 	rep = report.New("C15", tier, "model_checking")
-	rep.Rule = "E1: 19 base geometries of all eight types (axis-aligned and general-position rings, closed and unclosed, nested collections, empty geometries) whose members are >= 90 apart, tol in {1e-3, 0.1}; for each every derived h: identity; all coordinates perturbed by +-tol/2 in 6 sign patterns (expected true); every permutation of members (<= 3! ... 5!) combined with perturbation (true); every start rotation of closed rings (true); every single coordinate displaced by 2*tol (false); every member deleted / duplicated / a foreign member inserted at every position (false); every line / line member reversed (false); change of type with identical vertices (false). Every pair is evaluated in both directions (symmetry). Non-trivial = every derivation other than identity."
+	rep.Rule = "E1: 19 base geometries of all eight types (axis-aligned and general-position rings, closed and unclosed, nested collections, empty geometries) whose members are >= 90 apart, tol in {1e-3, 0.1}; for each every derived h: identity; all coordinates perturbed by +-tol/2 in 6 sign patterns (expected true); every permutation of members combined with perturbation (true); every start rotation of closed rings (true); every single coordinate displaced by 2*tol, incl. the closing vertex of a closed ring on its own (false); every member deleted / duplicated at every position (false); every line / line member reversed (false); change of type with identical vertices (false); and, for containers, every such derivation applied to every member with the other members unchanged (nested to depth 2: rings permuted inside a multi-polygon member, members of a nested collection, ...). Every pair is evaluated in both directions (symmetry). Non-trivial = every derivation other than identity."
 	cat := catalogue()
 	tols := []float64{1e-3, 0.1}
-	signs := []func(i int) (float64, float64){
-		func(i int) (float64, float64) { return 1, 1 },
-		func(i int) (float64, float64) { return -1, -1 },
-		func(i int) (float64, float64) { return 1, -1 },
-		func(i int) (float64, float64) { s := float64(1 - 2*(i%2)); return s, s },
-		func(i int) (float64, float64) { s := float64(1 - 2*(i%2)); return -s, s },
-		func(i int) (float64, float64) { s := float64(1 - 2*((i/2)%2)); return s, -s },
-	}
 	for gi, g := range cat {
 		for _, tol := range tols {
-			expect(g, clone(g), tol, true, "identity")
-			np := nPoints(g)
-			perturbed := make([]geom.Geom, len(signs))
-			for si, sg := range signs {
-				h := mapPoints(g, func(i int, p geom.Point) geom.Point {
-					sx, sy := sg(i)
-					return geom.Point{X: p.X + sx*tol/2, Y: p.Y + sy*tol/2}
-				})
-				perturbed[si] = h
-				expect(g, h, tol, true, "perturbed")
+			for _, v := range allVariants(g, tol, gi, 0) {
+				expect(g, v.h, tol, v.want, v.name)
 			}
-			// single coordinate displaced by 2 tol
-			for v := 0; v < np; v++ {
-				for axis := 0; axis < 2; axis++ {
-					for _, s := range []float64{2, -2} {
-						h := mapPoints(g, func(i int, p geom.Point) geom.Point {
-							if i == v {
-								if axis == 0 {
-									p.X += s * tol
-								} else {
-									p.Y += s * tol
-								}
-							}
-							return p
-						})
-						expect(g, h, tol, false, "vertex-displaced")
-					}
-				}
-			}
-			// rotations of closed rings
-			for k := 1; k < 4; k++ {
-				expect(g, rotateRings(g, k), tol, true, "ring-rotated")
-				expect(g, rotateRings(perturbed[3], k), tol, true, "ring-rotated+perturbed")
-			}
-			// member permutations, deletions, duplications, insertions
-			if ms, mk := members(g); ms != nil {
-				enum.Permutations(len(ms), func(p []int) bool {
-					x := make([]interface{}, len(ms))
-					for i, k := range p {
-						x[i] = ms[k]
-					}
-					expect(g, mk(x), tol, true, "members-permuted")
-					pm, _ := members(perturbed[gi%len(signs)])
-					for i, k := range p {
-						x[i] = pm[k]
-					}
-					expect(g, mk(x), tol, true, "members-permuted+perturbed")
-					return true
-				})
-				for i := range ms {
-					del := append(append([]interface{}{}, ms[:i]...), ms[i+1:]...)
-					expect(g, mk(del), tol, false, "member-deleted")
-					for pos := 0; pos <= len(ms); pos++ {
-						dup := append(append(append([]interface{}{}, ms[:pos]...), ms[i]), ms[pos:]...)
-						expect(g, mk(dup), tol, false, "member-duplicated")
-					}
-				}
-			}
-			// reversal of lines
-			switch t := g.(type) {
-			case geom.LineString:
-				if len(t) > 1 {
-					r := make(geom.LineString, len(t))
-					for i := range t {
-						r[i] = t[len(t)-1-i]
-					}
-					expect(g, r, tol, false, "line-reversed")
-				}
-			case geom.MultiLineString:
-				for m := range t {
-					h := clone(g).(geom.MultiLineString)
-					for i, j := 0, len(h[m])-1; i < j; i, j = i+1, j-1 {
-						h[m][i], h[m][j] = h[m][j], h[m][i]
-					}
-					expect(g, h, tol, false, "line-reversed")
-				}
-			}
-			// type changes with identical vertices
-			fl := geomgen.Flatten(g)
-			var alts []geom.Geom
-			alts = append(alts, geom.MultiPoint(fl), geom.LineString(fl), geom.MultiLineString{fl}, geom.Polygon{fl}, geom.MultiPolygon{{fl}}, geom.GeometryCollection{g})
-			if len(fl) > 0 {
-				alts = append(alts, fl[0])
-			}
-			if len(fl) >= 2 {
-				alts = append(alts, &geom.Bounds{Min: fl[0], Max: fl[1]})
-			}
-			for _, h := range alts {
-				if fmt.Sprintf("%T", h) != fmt.Sprintf("%T", g) {
-					expect(g, h, tol, false, "type-changed")
-				}
-			}
-			// against every other catalogue geometry of the same type
 			for hi, h := range cat {
 				if hi != gi && fmt.Sprintf("%T", h) == fmt.Sprintf("%T", g) {
 					expect(g, h, tol, false, "different-geometry")
